@@ -15,7 +15,9 @@ Loss == 5006       \* a loss of 5.006 in the same tax year
 CostPounds == 5000000   \* allowable cost of each disposal, in whole pounds (keeps proceeds positive for every value)
 FeeK == 100             \* sale fees of 0.10: gross proceeds = net proceeds + 0.10
 ExemptK == 3000000      \* annual exempt amount 3,000.00
-HoldK(k) == LET a == FAbs(k) IN (a - 100000 * (a \div 100000)) + 8000
+\* total cost of the 8 shares held: eight times a value with k's own last digits, so that the AVERAGE lands on a
+\* half-penny midpoint whenever k does
+HoldK(k) == LET a == FAbs(k) IN 8 * (a - 100000 * (a \div 100000)) + 8000
 
 Laws == \A k \in Values : RoundLaw(k)
 ASSUME Laws
